@@ -85,6 +85,8 @@ def _recheck(ctx, line):
     env.setdefault('ASAN_OPTIONS', 'detect_leaks=0:abort_on_error=0')
     p = subprocess.run([h, 'judge'], input=line + '\n', stdout=subprocess.PIPE, stderr=subprocess.PIPE, text=True, env=env)
     for l in p.stdout.split('\n'):
+        if l.startswith('J '):
+            continue
         if l.startswith('W '):
             parts = [x.strip() for x in l[2:].split(' | ')]
             if len(parts) >= 4:
@@ -106,8 +108,11 @@ def search(ctx):
     runs = [('prop', str(ctx.seed + 11), str(n)), ('propenum', '0' if ctx.quick else '1')]
     for args in runs:
         p = subprocess.run([h] + list(args), stdout=subprocess.PIPE, stderr=subprocess.PIPE, text=True, env=env)
+        last = ' '.join(args)
         for line in p.stdout.split('\n'):
-            if line.startswith('W '):
+            if line.startswith('J '):
+                last = line[2:]
+            elif line.startswith('W '):
                 parts = [x.strip() for x in line[2:].split(' | ')]
                 if len(parts) >= 4:
                     wit.append({'suite': 'repack-prop', 'input': parts[1][:200000], 'expected': parts[2], 'observed': parts[3],
@@ -117,8 +122,9 @@ def search(ctx):
                 cases += int(m.group(1)); distinct = max(distinct, int(m.group(2)))
                 samples.append(line[2:])
             elif line.startswith('O SANITIZER') or line.startswith('O ABORT'):
-                wit.append({'suite': 'repack-prop', 'input': ' '.join(args), 'expected': 'no sanitizer report / assert',
-                            'observed': line[2:] + ' ' + p.stderr[-1500:], 'why': 'memory-safety failure during the property run'})
+                wit.append({'suite': 'repack-prop', 'input': last[:200000], 'expected': 'no sanitizer report / assert',
+                            'observed': line[2:] + ' ' + p.stderr[-1500:],
+                            'why': 'memory-safety failure (sanitizer report or hardening assert) on this input (%s)' % ' '.join(args)})
         if p.returncode != 0 and not wit:
             wit.append({'suite': 'repack-prop', 'input': ' '.join(args), 'expected': 'harness exits 0',
                         'observed': 'exit %d: %s' % (p.returncode, p.stderr[-1500:]), 'why': 'property harness crashed'})
